@@ -508,6 +508,23 @@ struct Runner
                 else if (!r2.violated && r1.violated)
                 {
                     cr.viol.tags = {"C18.effect"};
+                    // a count that differs from the number of single successes is also an untruthful count (C09 for inserts)
+                    bool was_count = false, only_count = true;
+                    for (auto& t : r1.viol.tags)
+                    {
+                        if (t == "UNATTRIBUTED.range-result")
+                            was_count = true;
+                        else
+                            only_count = false;
+                    }
+                    if (was_count)
+                    {
+                        cr.viol.tags.push_back("C18.count");
+                        // the range did what its singles do (the audit agreed) and only the reported count is off: for an
+                        // insert range that is an untruthful count in C09's sense as well
+                        if (only_count && r1.viol.op_index >= 0 && (size_t)r1.viol.op_index < ops.size() && op_is_insert(ops[(size_t)r1.viol.op_index].kind))
+                            cr.viol.tags.push_back("C09.count");
+                    }
                     cr.viol.detail += " [the same history with every range expanded into single calls conforms: the range form differs from its singles]";
                 }
             }
